@@ -93,6 +93,8 @@ let parse_sexp (s : string) : Model.sexp =
 let () =
   let st = ref Model.ds_init in
   let lineno = ref 0 in
+  (* diagnostic: print the model's own results for history cases on stderr *)
+  let explain = (try Sys.getenv "VERIF_EXPLAIN" <> "" with Not_found -> false) in
   (try
      while true do
        let line = input_line stdin in
@@ -103,6 +105,9 @@ let () =
          match (try Ok (parse_sexp line) with Parse_error m -> Error m) with
          | Error m -> Printf.printf "FAIL 0 0 bad-case parse error line %d: %s\n" !lineno m
          | Ok sx ->
+           if explain then
+             List.iter (fun m -> prerr_endline (Printf.sprintf "line %d %s" !lineno (ocaml_string m)))
+               (Model.explain_case !st sx);
            let (st', o) = Model.run_case !st sx in
            st := st';
            let msgs = List.map ocaml_string o.Model.o_msgs in
